@@ -226,6 +226,7 @@ to the field's own `mode`); `false` is the code before (returns False at once). 
 structure Legacy where
   modeStringReturns : Bool := false      -- field.py is_no_input / is_no_output before the fix
   depsByKey : Bool := false              -- apply_fields before the fix
+  predSkipsMode : Bool := false          -- always_no_input before the fix: a callable no_input returned False at once
   deriving Repr, DecidableEq
 
 def Legacy.none : Legacy := {}
@@ -257,7 +258,7 @@ def isNoOutput {V : Type} (L : Legacy) (W : World V) (o : Opts V) (f : PField V)
   flagHolds L W o.mode f.mode f.noOutput v
 
 /-- `always_no_input` (field.py:840-856) -/
-def alwaysNoInput {V : Type} (o : Opts V) (f : PField V) : Bool :=
+def alwaysNoInput {V : Type} (L : Legacy) (o : Opts V) (f : PField V) : Bool :=
   match f.noInput with
   | .yes => true
   | fl =>
@@ -265,16 +266,18 @@ def alwaysNoInput {V : Type} (o : Opts V) (f : PField V) : Bool :=
     | none => false
     | some m =>
       match fl with
-      | .pred _ => false
+      | .pred _ =>
+        if L.predSkipsMode then false
+        else (match f.mode with | some fm => !fm.contains m | none => false)
       | .modes ms =>
         if ms.contains m then true
         else (match f.mode with | some fm => !fm.contains m | none => false)
       | _ => (match f.mode with | some fm => !fm.contains m | none => false)
 
 /-- `is_required` (field.py:803-812) -/
-def isRequired {V : Type} (o : Opts V) (f : PField V) : Bool :=
+def isRequired {V : Type} (L : Legacy) (o : Opts V) (f : PField V) : Bool :=
   if o.ignoreRequired || f.required = .no then false
-  else if alwaysNoInput o f then false
+  else if alwaysNoInput L o f then false
   else match f.required with
     | .yes => true
     | .no => false
@@ -313,12 +316,12 @@ structure St (V : Type) where
   deriving Repr
 
 /-- `ParserField.parse_value` (field.py:1063-1089): value to store (if any) and the errors handled. -/
-def parseValue {V : Type} (W : World V) (o : Opts V) (f : PField V) (v : V) : Option V × List Err :=
+def parseValue {V : Type} (L : Legacy) (W : World V) (o : Opts V) (f : PField V) (v : V) : Option V × List Err :=
   match W.fp f.attname v with
   | some r => (some r, [])
   | none =>
     match getOnError o f with
-    | .exclude => (getDefault o f false, if isRequired o f then [.parse f.name] else [])
+    | .exclude => (getDefault o f false, if isRequired L o f then [.parse f.name] else [])
     | .preserve => (some v, [])
     | .throw => (none, [.parse f.name])
 
@@ -333,16 +336,16 @@ def provide {V : Type} (L : Legacy) (W : World V) (o : Opts V) (f : PField V) (v
     | none => st
   else
     let st := if conflict then { st with errs := st.errs ++ [.aliasConflict f.name] } else st
-    let (p, es) := parseValue W o f v
+    let (p, es) := parseValue L W o f v
     let st := { st with errs := st.errs ++ es }
     match p with
     | none => st
     | some r => { st with result := dset f.name r st.result, deps := st.deps ++ f.deps }
 
 /-- The statements for a field without input (base.py:489-502 and 579-590). -/
-def absent {V : Type} (o : Opts V) (f : PField V) (st : St V) : St V :=
+def absent {V : Type} (L : Legacy) (o : Opts V) (f : PField V) (st : St V) : St V :=
   let st := { st with unprov := st.unprov ++ [f.name] }
-  if isRequired o f then { st with errs := st.errs ++ [.absence f.name] }
+  if isRequired L o f then { st with errs := st.errs ++ [.absence f.name] }
   else match getDefault o f false with
     | some d => { st with result := dset f.name d st.result }
     | none => st
@@ -418,15 +421,15 @@ def dfProvideAll {V : Type} (L : Legacy) (W : World V) (o : Opts V) (conflicts :
     provide L W o ni.2.field ni.2.value (conflicts.contains ni.1 && !o.ignoreAliasConflicts) st) st
 
 /-- third loop (base.py:489-502) -/
-def dfAbsentAll {V : Type} (P : Parser V) (o : Opts V) (inputs : List (Key × Input V)) (st : St V) : St V :=
-  P.fields.foldl (fun st kf => if dhas kf.2.name inputs then st else absent o kf.2 st) st
+def dfAbsentAll {V : Type} (L : Legacy) (P : Parser V) (o : Opts V) (inputs : List (Key × Input V)) (st : St V) : St V :=
+  P.fields.foldl (fun st kf => if dhas kf.2.name inputs then st else absent L o kf.2 st) st
 
 def dataFirst {V : Type} [DecidableEq V] (L : Legacy) (W : World V) (P : Parser V) (o : Opts V)
     (data : List (Key × V)) : St V :=
   let s := data.foldl (dfScanStep W P o) {}
   let st : St V := { errs := s.errs }
   let st := dfProvideAll L W o s.conflicts s.inputs st
-  let st := dfAbsentAll P o s.inputs st
+  let st := dfAbsentAll L P o s.inputs st
   let st := depsCheck P st
   { st with result := dupdate st.result s.addition }
 
@@ -472,7 +475,7 @@ def ffFieldStep {V : Type} [DecidableEq V] (L : Legacy) (W : World V) (o : Opts 
     (s : FfSt V) (kf : Key × PField V) : FfSt V :=
   let f := kf.2
   match ffPick o.ignoreAliasConflicts m f.allAliases none with
-  | (none, _) => { s with st := absent o f s.st }
+  | (none, _) => { s with st := absent L o f s.st }
   | (some v, c) => { st := provide L W o f v c s.st, used := s.used ++ f.allAliases }
 
 /-- the addition loop (base.py:631-640) -/
@@ -602,14 +605,14 @@ def dataFirstLegacy {V : Type} [DecidableEq V] (W : World V) (P : Parser V) (o :
         | some stored =>
           ((if stored ≠ kv.2 then { st with errs := st.errs ++ [.aliasConflict f.name] } else st), add)
         | none =>
-          let (p, es) := parseValue W o f kv.2
+          let (p, es) := parseValue L W o f kv.2
           let st := { st with errs := st.errs ++ es }
           ((match p with
             | none => st
             | some r => { st with result := dset f.name r st.result, deps := st.deps ++ f.deps }), add))
     (({} : St V), [])
   let st := if o.ignoreRequired then st else
-    P.fields.foldl (fun st kf => if dhas kf.2.name st.result then st else absent o kf.2 st) st
+    P.fields.foldl (fun st kf => if dhas kf.2.name st.result then st else absent L o kf.2 st) st
   let st := depsCheck P st
   { st with result := dupdate st.result add }
 
@@ -625,7 +628,7 @@ def fieldFirstLegacy {V : Type} [DecidableEq V] (W : World V) (P : Parser V) (o 
   let s := P.fields.foldl (fun (s : FfSt V) kf =>
     let f := kf.2
     match ffPick o.ignoreAliasConflicts m f.allAliases none with
-    | (none, _) => { s with st := absent o f s.st }
+    | (none, _) => { s with st := absent L o f s.st }
     | (some v, c) =>
       let st := if c then { s.st with errs := s.st.errs ++ [.aliasConflict f.name] } else s.st
       { st := provide L W o f v false st, used := s.used ++ f.allAliases }) {}
